@@ -30,6 +30,8 @@ for d in sorted(os.listdir(os.path.join(V, "seeded"))):
     first = m.get("first_run_of_owning_check", "")
     if rnd == 1:
         first_s = "n/a (round 1 preceded the check; rules were written knowing the change)"
+    elif rnd == "5w":
+        first_s = "n/a (white-box: delivered because the checker was silent)"
     else:
         fr = sorted(set(re.findall(r"\[(C\d+-[A-Z]\d+)\]", first)))
         first_s = "MISSED" if ("MISSED" in first or not fr) else ", ".join(fr)
@@ -50,6 +52,10 @@ with open(os.path.join(V, "seeded", "RESULTS.md"), "w") as f:
         miss = [r for r in rr if r[4] == "MISSED"]
         f.write(f"{label}: {len(rr)} changes, {len(rr)-len(miss)} reported at first run, {len(miss)} missed at first run; "
                 f"after strengthening, {sum(1 for r in rr if r[5] not in ('?', 'MISSED'))} of {len(rr)} are reported.\n\n")
+    w5 = [r for r in rows if r[2] == "5w"]
+    if w5:
+        f.write(f"Round W5 (white-box red team; not a measurement): {len(w5)} changes the checker did not report when they were made; "
+                f"{sum(1 for r in w5 if r[5] not in ('?', 'MISSED'))} of {len(w5)} are reported now (the rest no longer break the property, see DESIGN.md).\n\n")
     f.write("| change | property | round | what was changed | first run | now |\n|---|---|---|---|---|---|\n")
     for r in rows:
         f.write(f"| {r[0]} | {r[1]} | {r[2]} | {r[3]} | {r[4]} | {r[5]} |\n")
